@@ -51,6 +51,17 @@ end
 def preferred (inp : Inputs) (vars : List Tok) : List (Tok × Bool) :=
   vars.map fun v => (v, (domainOf inp v).getLast?.getD false)
 
+/-- The property's wording, flag by flag, with no reference to the solver domains or their order ("forced flags as
+forced, preferred flags on, all others off"; outside IUSE a flag is always off, forced or not — the code intersects
+every set with `iuse` and gives `missing_vars` the domain `(False,)`): a flag is on in the preferred assignment iff the
+package has it and it is forced on, or it is not forced off and is in the preferred-on set. -/
+def preferredOn (inp : Inputs) (v : Tok) : Bool :=
+  inp.iuse.contains v && (inp.forceT.contains v || (!inp.forceF.contains v && inp.preferT.contains v))
+
+/-- the preferred assignment read off the wording -/
+def preferredByWording (inp : Inputs) (vars : List Tok) : List (Tok × Bool) :=
+  vars.map fun v => (v, preferredOn inp v)
+
 /-- the query with the forced sets cut down to IUSE (profiles force and mask flags a package need not have) -/
 def restrictForced (inp : Inputs) : Inputs :=
   { inp with forceT := inp.forceT.filter inp.iuse.contains, forceF := inp.forceF.filter inp.iuse.contains }
